@@ -428,6 +428,8 @@ def main(argv=None):
     ap.add_argument("--runs", type=int, default=None)
     ap.add_argument("--workers", type=int, default=None)
     ap.add_argument("--replay", default=None)
+    ap.add_argument("--digests", default=None, help="determinism aid: print run digests for the given runs, e.g. 0-15")
+    ap.add_argument("--repeat", type=int, default=1)
     ap.add_argument("--no-crosscheck", action="store_true")
     args = ap.parse_args(argv)
     if args.replay:
@@ -436,6 +438,10 @@ def main(argv=None):
     C16Check.default_tier = args.tier
     if args.replay:
         return runner.replay(factory(), args.replay)
+    if args.digests:
+        chk = factory()
+        chk.tier = args.tier
+        return runner.print_digests(chk, runner.parse_runs(args.digests), args.repeat)
     runs = args.runs if args.runs is not None else (160 if args.tier == "quick" else 6000)
     return runner.run(factory, PROP, args.tier, runs, nworkers=args.workers)
 
